@@ -80,7 +80,10 @@ static void gen_queues(void) {
 		}
 		if (nr) {
 			int r = rc[g_n((uint32_t)nr)], tc[QMAX], nt = 0;
-			for (int i = 0; i < nq; i++) if (i != r && (Q[i].kind == QK_SERIAL || Q[i].kind == QK_CONC || Q[i].kind == QK_WORKLOOP) && !Q[i].inactive && Q[i].depth + 1 < G->max_qdepth) tc[nt++] = i;
+			for (int i = 0; i < nq; i++) if (i != r && (Q[i].kind == QK_SERIAL || Q[i].kind == QK_CONC || Q[i].kind == QK_WORKLOOP) && Q[i].depth + 1 < G->max_qdepth) {
+				int chain_active = 1; for (int j = i; j >= 0; j = Q[j].target) if (Q[j].inactive) chain_active = 0;   // the thread that retargets also blocks on the moved queue
+				if (chain_active) tc[nt++] = i;
+			}
 			if (nt) Q[r].retarget_to = tc[g_n((uint32_t)nt)];
 		}
 	}
@@ -109,7 +112,7 @@ static int pick_queue(const gctx *c, bool blocking) {
 			else if (Q[i].tree <= c->min_tree) continue;
 		}
 		if (blocking && Q[i].kind == QK_MAIN && c->from_q >= 0 && !G->main_tree) continue;
-		if (blocking && Q[i].retarget_to >= 0) continue;
+		if (blocking && Q[i].retarget_to >= 0) continue;   // (synchronous submissions to it are placed explicitly, behind the retarget)
 		cand[n++] = i;
 	}
 	if (!n) return -1;
@@ -202,7 +205,8 @@ static bool gen_one(qop *op, gctx c) {
 	op->item = new_item(op, c.client, c.parent_item, -1);
 	if (op->item < 0) return false;
 	// a quarter of the submissions have their thread descheduled somewhere inside the call
-	if (g_chance(1, 4)) { op->arm_rel = g_range(1, 45); op->arm_code = g_range(1, 4); }
+	// (half of them early in the call, where the item is published: tail exchange, head store, state update)
+	if (g_chance(1, 4)) { op->arm_rel = g_chance(1, 2) ? g_range(1, 12) : g_range(1, 45); op->arm_code = g_range(1, 4); }
 	gen_body(op, c);
 	return true;
 }
@@ -262,13 +266,28 @@ static void gen_program(void) {
 	// the retarget itself: somewhere in the middle of one client's program (can be switched off like any operation)
 	for (int i = 0; i < nq; i++) if (Q[i].retarget_to >= 0) {
 		int c = (int)g_n((uint32_t)nclients);
-		qop *ops = xzalloc(sizeof(qop) * (size_t)(client_nops[c] + 1));
-		int pos = (int)g_n((uint32_t)client_nops[c] + 1);
+		// ... followed, in the same thread, by up to two synchronous submissions to the moved queue. Only there:
+		// a synchronous submission that is in flight *while* dispatch_set_target_queue is called walks a target chain
+		// that changes under it (observed: hang or crash; legacy behaviour outside every listed property, the
+		// replay is kept as findings/OBS-legacy-retarget-racing-sync-in-flight.replay), whereas one issued after the
+		// call has returned queues up behind the retarget and is well defined.
+		int nsync = (int)g_n(3);
+		qop *ops = xzalloc(sizeof(qop) * (size_t)(client_nops[c] + 1 + nsync));
+		// (behind this client's activations: everything in front of an activation must be non-blocking)
+		int minpos = 0; for (int k = 0; k < client_nops[c]; k++) if (client_ops[c][k].kind == OP_ACTIVATE) minpos = k + 1;
+		int pos = minpos + (int)g_n((uint32_t)(client_nops[c] - minpos) + 1);
 		memcpy(ops, client_ops[c], sizeof(qop) * (size_t)pos);
 		qop *a = &ops[pos]; memset(a, 0, sizeof *a);
 		a->idx = next_op_idx++; a->kind = OP_RETARGET; a->q = i; a->wait_item = -1; a->item = -1;
-		memcpy(ops + pos + 1, client_ops[c] + pos, sizeof(qop) * (size_t)(client_nops[c] - pos));
-		client_ops[c] = ops; client_nops[c]++;
+		for (int k = 0; k < nsync; k++) {
+			static const int sk[] = { OP_SYNC, OP_BARRIER_SYNC, OP_AAW, OP_BARRIER_AAW };
+			qop *y = &ops[pos + 1 + k]; memset(y, 0, sizeof *y);
+			y->idx = next_op_idx++; y->kind = sk[g_n(4)]; y->q = i; y->form = (int)g_n(2); y->wait_item = -1; y->body = g_chance(1, 2) ? B_YIELD : B_EMPTY; y->body_arg = 1;
+			y->item = new_item(y, c, -1, -1);
+			if (y->item < 0) { nsync = k; break; }
+		}
+		memcpy(ops + pos + 1 + nsync, client_ops[c] + pos, sizeof(qop) * (size_t)(client_nops[c] - pos));
+		client_ops[c] = ops; client_nops[c] += 1 + nsync;
 	}
 	if (G->poolblock) {
 		// every pool thread blocked inside an item that waits for a later item of the same global queue
